@@ -126,10 +126,16 @@ def main() -> int:
     ap.add_argument("files", nargs="+")
     ap.add_argument("--scramble", action="store_true",
                     help="replace names by meaningless ones")
+    ap.add_argument("--keep", default=None,
+                    help="keep the renamed copy in this directory")
     a = ap.parse_args()
     global SCRAMBLE
     SCRAMBLE = a.scramble
     tmp = tempfile.mkdtemp(prefix="sa_rename_")
+    if a.keep:
+        shutil.rmtree(a.keep, ignore_errors=True)
+        os.makedirs(a.keep)
+        tmp = a.keep
     try:
         for pkg in ("moptipyapps", "examples"):
             shutil.copytree(os.path.join(a.root, pkg), os.path.join(tmp, pkg),
@@ -162,7 +168,8 @@ def main() -> int:
                 print(f"{c}: silent")
         return 1 if bad else 0
     finally:
-        shutil.rmtree(tmp, ignore_errors=True)
+        if not a.keep:
+            shutil.rmtree(tmp, ignore_errors=True)
 
 
 if __name__ == "__main__":
